@@ -53,6 +53,8 @@ Ok(e, FINDING) == CASE e.k = "area" -> AreaOk(e) [] e.k = "cpts" -> CPtsOk(e) []
                     \* a small ring moved far away by an exact translation keeps its area to a relative 1e-9 (units of 1e-12); Area and
                     \* CentroidArea, ring / polygon / multipolygon agree
                     [] e.k = "areafar" -> \A j \in 1..Len(e.rel) : e.rel[j] <= 1000
+                    \* long segments, points close to them: every route to the distance within a relative 1e-9 of the exact value
+                    [] e.k = "distbig" -> \A j \in 1..Len(e.rel) : e.rel[j] <= 1000
                     [] e.k = "seg" -> SegOk(e) [] e.k = "dist" -> DistOk(e) [] e.k = "distidx" -> DistIdxOk(e) [] e.k = "len" -> LenOk(e) [] OTHER -> FALSE
 Init == l = 1 /\ bad = {} /\ alt = {}
 Next == /\ l <= Len(Trace) /\ l' = l + 1
